@@ -61,10 +61,10 @@ class Server:
         for o in self._lines():
             if 'h' in o:
                 h = o
-                h['hooks'] = [x for x in o['hooks'].split('\n') if x]
+                h['hooks'] = [x for x in o['hooks'].split('\n') if x and not x.startswith('u:')]      # (u: = hooks put on unregistered entries: judged for idempotence only)
             elif 'c' in o:
                 res[o['c']].update(o)
-                res[o['c']]['hooks'] = [x for x in o['hooks'].split('\n') if x]
+                res[o['c']]['hooks'] = [x for x in o['hooks'].split('\n') if x and not x.startswith('u:')]
             elif 's' in o:
                 res[o['s']]['status'] = o['status']
                 res[o['s']]['stderr'] = o['stderr']
